@@ -345,6 +345,25 @@ def gen_swap_run(rng):
                 demands=[round(rng.uniform(0.0005, 0.004), 6) for _ in range(n)], elev=[round(rng.uniform(0, 8), 2) for _ in range(n)])
 
 
+def gen_pause_run(rng):
+    """a chain R - J.. -[cut]- zone: the cutting pipe is closed by an int-valued action (as the INP reader creates them) for a
+    while; the run is paused while the zone is cut off and continued with a new simulator; the zone is reconnected later"""
+    k1, k2 = rng.randint(1, 2), rng.randint(1, 3)
+    n = 1 + k1 + k2
+    kinds = ["R"] + ["J"] * (k1 + k2)
+    links = []
+    for v in range(1, n):
+        links.append((v - 1, v) if rng.random() < 0.5 else (v, v - 1))
+    cut = k1                      # link between node k1 and k1+1
+    t_close, t_open = 1, rng.randint(3, 4)
+    steps = t_open + rng.randint(1, 2)
+    pause = rng.randint(t_close + 1, t_open - 1) if t_open - 1 >= t_close + 1 else t_close + 1
+    ctrls = [(cut, t_close, CLOSED), (cut, t_open, OPEN)]
+    return dict(n=n, kinds=kinds, links=links, init=[OPEN] * len(links), steps=steps, ctrls=ctrls, pdd=rng.random() < 0.3,
+                demands=[round(rng.uniform(0.0005, 0.004), 6) for _ in range(n)], elev=[round(rng.uniform(0, 8), 2) for _ in range(n)],
+                pause=pause, intvals=True)
+
+
 def build_run_wn(wntr, sc):
     from wntr.network.controls import Control, ControlAction, SimTimeCondition
 
@@ -708,6 +727,7 @@ class C09(Check):
             nets.append((net, [ACTIVE] * len(net["links"]), ["p"]))
         runs = [gen_run(rng, quick=q) for _ in range(14 if q else 120)]
         runs += [gen_swap_run(rng) for _ in range(3 if q else 20)]
+        runs += [gen_pause_run(rng) for _ in range(3 if q else 20)]
         # variants of the same scenarios: the piecewise Hazen-Williams rows, and a second run of the same simulator object
         extra = []
         for i, sc in enumerate(runs):
